@@ -25,7 +25,8 @@ def make_run(fname):
         events = 0
         res = {}
         for tag, (x, y) in (("12", (s1, s2)), ("21", (s2, s1))):
-            D1, D2 = B.mk_dfa(x), B.mk_dfa(y)
+            D1 = B.mk_dfa(x)
+            D2 = D1 if case.get("same_object") else B.mk_dfa(y)
             try:
                 got, ev = lib(run_with_budget, fn, D1, D2, max_events=BUDGET)
             except BudgetExceeded as e:
@@ -90,7 +91,10 @@ def split_state(draw, spec):
 
 @st.composite
 def cases(draw, tier):
-    kind = draw(st.sampled_from(["renamed", "renamed_unreachable", "split", "mutated", "independent", "renamed", "split", "mutated"]))
+    kind = draw(st.sampled_from(["renamed", "renamed_unreachable", "split", "mutated", "independent", "renamed", "split", "mutated", "same_object"]))
+    if kind == "same_object":
+        base = draw(G.inflated_dfa_specs(max_states=4, max_sigma=2))
+        return {"kind": kind, "d1": base, "d2": base, "same_object": True}
     base = draw(G.dfa_specs(min_states=1 if draw(st.integers(0, 7)) == 0 else 2, max_states=5, max_sigma=2, pool=G.POOL[:12]))
     pool2 = G.POOL if draw(st.booleans()) else G.POOL[:12]
     if kind == "independent":
